@@ -553,7 +553,7 @@ package types
 //@   ensures [powers] r != nil ==> r.TotalVotingPower == sumPow(valSet.Validators, len(valSet.Validators)) && r.ValidatorPower == valSet.Validators[indexOf(valSet.Validators, vote1.ValidatorAddress, len(valSet.Validators))].VotingPower && r.Timestamp == blockTime
 
 //@ func (blockID *BlockID) Equal(other BlockID) (r bool)
-//@   for C02 C19 C13
+//@   for C02 C19 C13 C03
 //@   requires blockID != nil
 //@   ensures r <==> *blockID == other
 
@@ -1124,3 +1124,27 @@ package types
 //@   modifies *
 //@   atstore SimpleValidator.VotingPower requires [powerIsPartOfTheSetHash] new == v.VotingPower
 //@   atstore SimpleValidator.Address requires [addressIsPartOfTheSetHash] len(new) == 20 && content(new) == content(v.Address)
+
+// ---------------------------------------------------------------- equality of block ids is equality of every component
+//@ func (psh PartSetHeader) Equals(other PartSetHeader) (r bool)
+//@   for C02 C03 C13
+//@   modifies nothing
+//@   ensures r <==> psh == other
+
+// A part or a validator set is refused only for what makes it invalid: a genuine full-size part (exactly
+// BlockPartSizeBytes, which is what NewPartSetFromData produces) is accepted.
+//@ aspect func (part *Part) ValidateBasic() (err error)
+//@   for C13
+//@   requires part != nil
+//@   modifies nothing
+//@   ensures [fullSizePartsAccepted] len(part.Bytes) <= BlockPartSizeBytes ==> err == nil
+
+// Rotation rescales into a window of twice the total power (PriorityWindowSizeFactor), the same window
+// the update pipeline uses.
+//@ aspect func (vs *ValidatorSet) IncrementProposerPriority(times int64)
+//@   for C12
+//@   requires vs != nil
+//@   modifies *
+//@   opt assumecallreqs
+//@   opt noinline
+//@   atcall ValidatorSet.RescalePriorities requires [windowIsTwiceTheTotal] diffMax == 2 * result(ValidatorSet.TotalVotingPower) && vs == outer(vs)
